@@ -55,8 +55,9 @@ type TQuote struct {
 type TMelt struct {
 	Q        storage.MeltQuote
 	Hash     string
-	Internal int   // index of own mint quote with the same invoice, -1 if external
-	Inputs   []int // tracked proof indices locked by the accepted melt
+	Wits     map[int]string // witness each input was presented with
+	Internal int            // index of own mint quote with the same invoice, -1 if external
+	Inputs   []int          // tracked proof indices locked by the accepted melt
 	// Known: what the mint has been told by the backend: "" (nothing attempted), "none" (in flight / ambiguous),
 	// "success", "failure"
 	Known    string
@@ -611,7 +612,15 @@ func (w *W) Canon() string {
 		} else if mq, ok := t.Pending[p.Y]; ok {
 			real = fmt.Sprintf("P%d", meltIdx[mq])
 		}
-		fmt.Fprintf(&sb, "p%d:%d:k%d:%s:%s;", i, p.P.Amount, p.KS, real, stName[p.St][:1])
+		// witness the proof was presented with (model) / stored with (spent table): the paths that mark a proof spent differ
+		wit := ""
+		if p.Wit != "" || t.Spent[p.Y] != "" {
+			wit = "w"
+		}
+		if p.St == Pending && p.Melt >= 0 && p.Melt < len(w.Melts) && w.Melts[p.Melt].Wits[i] != "" {
+			wit = "w"
+		}
+		fmt.Fprintf(&sb, "p%d:%d:k%d:%s:%s%s;", i, p.P.Amount, p.KS, real, stName[p.St][:1], wit)
 	}
 	for i, q := range w.Quotes {
 		settled := false
